@@ -15,6 +15,7 @@ fn shr_ref(value: &IBig, shift: usize) -> IBig
     /*@ proof {
         lemma_fu_shr_words(words@, shift as nat, (if n_words <= words@.len() { n_words as int } else { words@.len() as int }));
         lemma_ipow_pos(2, (shift % 64) as nat);
+        lemma_ipow_pos(2, shift as nat);
         vstd::arithmetic::div_mod::lemma_div_pos_is_pos(wl::val(words@), ipow(2, shift as nat));
         lemma_fu_tshr_parts(value.v(), shift as nat, sign, wl::val(words@) / ipow(2, shift as nat));
         lemma_fu_tshr(value.v(), shift as nat);
